@@ -1,4 +1,4 @@
 SPECIFICATION Spec
 CONSTANTS N = 3  K = 6  TS = {0, 4, 16, 40, 200}
-INVARIANTS DP Radial Vis VisKeepN
+INVARIANTS DP DPAll Radial Vis VisKeepN
 CHECK_DEADLOCK FALSE
